@@ -18,7 +18,7 @@ func baseProfile() Profile {
 	return Profile{Name: "kitchen-sink",
 		WTick: 18, WDeliver: 30, WNet: 2, WRead: 2, WPropose: 6, WMisc: 5, WCrash: 3, WReady: 22, WStorage: 8, WSelf: 7,
 		DropPct: 5, DupPct: 5, StalePct: 30, CrashPct: 20, AppLagPct: 30, CompactPct: 30, CCPct: 30, TransferPct: 12, BigPct: 5, CampaignPct: 12,
-		FIFOPct: 33, RestartPct: 25}
+		FIFOPct: 33, RestartPct: 25, CalmMin: 250, HostileMin: 60}
 }
 
 // Profiles returns the named profile.
@@ -38,10 +38,10 @@ func profileByName(name string, r *rand.Rand) Profile {
 	case "async-lag":
 		p.AppLagPct, p.WStorage, p.CrashPct, p.WCrash = 90, 6, 40, 4
 	case "snapshot":
-		p.CompactPct, p.WMisc, p.CCPct, p.DropPct = 100, 8, 10, 10
+		p.CompactPct, p.WMisc, p.CCPct, p.DropPct, p.WNet, p.CrashPct, p.WCrash, p.WPropose = 100, 9, 30, 10, 5, 30, 4, 9
 	case "snapshot-lag":
 		// snapshots and compaction while storage threads lag and terms change
-		p.CompactPct, p.WMisc, p.AppLagPct, p.DropPct, p.WTick, p.CampaignPct = 100, 9, 85, 10, 22, 40
+		p.CompactPct, p.WMisc, p.AppLagPct, p.DropPct, p.WTick, p.CampaignPct, p.WNet, p.CrashPct, p.CCPct, p.WPropose = 100, 9, 85, 10, 22, 40, 5, 15, 30, 9
 	case "churn":
 		p.CCPct, p.WMisc, p.CrashPct, p.DropPct = 100, 9, []int{0, 10}[r.Intn(2)], []int{0, 5}[r.Intn(2)]
 	case "churn-lag":
@@ -52,6 +52,9 @@ func profileByName(name string, r *rand.Rand) Profile {
 		p.BigPct, p.WPropose, p.DropPct, p.DupPct, p.StalePct, p.CrashPct = 40, 16, 15, 15, 40, 5
 	case "read":
 		p.WRead, p.WNet, p.CrashPct = 10, 4, 10
+	case "read-storm":
+		// many reads while leadership keeps changing (the same node leads several times)
+		p.WRead, p.WTick, p.DropPct, p.CampaignPct, p.WMisc, p.CrashPct, p.TransferPct, p.CCPct = 14, 24, 8, 60, 7, 5, 40, 10
 	case "transfer":
 		p.TransferPct, p.WMisc, p.CrashPct = 60, 8, 5
 	case "opfuzz":
@@ -84,7 +87,7 @@ var profileMix = map[string][]string{
 	"C08": {"flow", "async-lag", "snapshot", "crash-heavy", "kitchen-sink"},
 	"C09": {"snapshot", "snapshot", "snapshot", "snapshot-lag", "churn", "crash-heavy", "kitchen-sink"},
 	"C10": {"churn", "churn", "churn", "churn-lag", "snapshot", "election-storm", "kitchen-sink"},
-	"C11": {"read", "read", "read", "partition", "election-storm", "churn"},
+	"C11": {"read", "read", "read-storm", "read-storm", "partition", "election-storm", "churn"},
 	"C14": {"kitchen-sink", "kitchen-sink", "churn", "snapshot", "crash-heavy", "async-lag", "flow", "transfer", "election-storm", "opfuzz", "opfuzz", "churn-lag"},
 	"C15": {"kitchen-sink", "partition", "churn", "snapshot", "snapshot-lag", "flow", "transfer", "crash-heavy", "async-lag", "election-storm"},
 	"C16": {"flow", "flow", "flow", "steady", "partition", "kitchen-sink"},
@@ -111,6 +114,9 @@ func GenWorld(seed int64, prop string, idx int, steps int) WorldCfg {
 		cfg.Prof = profileByName(f, r)
 	}
 	nn := []int{1, 2, 3, 3, 3, 4, 5, 5}[r.Intn(8)]
+	if prop == "C11" && r.Intn(2) == 0 {
+		nn = 4 + r.Intn(2) // quorums larger than leader + one follower
+	}
 	if prop == "C19" && r.Intn(4) == 0 {
 		nn = 8 + r.Intn(2) // more than 7 peers: the allocation path of ProgressTracker.Visit
 	}
@@ -218,15 +224,111 @@ func (w *World) restartRange(n *node) (lo, hi uint64) {
 	return
 }
 
-// Gen picks the next action.
+type workItem struct {
+	k   string
+	n   uint64
+	a   uint64
+	f   bool
+	lag bool // storage-thread work (subject to the profile's lag)
+}
+
+// enabledWork lists everything that would make progress right now: deliveries,
+// Ready sub-steps, storage-thread steps, self-addressed responses.
+func (w *World) enabledWork(r *rand.Rand) []workItem {
+	var items []workItem
+	for i, id := range w.order {
+		if i >= 24 { // a window of the oldest messages plus a few random ones
+			for j := 0; j < 4; j++ {
+				items = append(items, workItem{k: "deliver", a: uint64(w.order[24+r.Intn(len(w.order)-24)])})
+			}
+			break
+		}
+		items = append(items, workItem{k: "deliver", a: uint64(id)})
+	}
+	for _, id := range w.ids {
+		n := w.nodes[id]
+		if !n.up() {
+			continue
+		}
+		if n.cfg.Async {
+			if n.rn.HasReady() {
+				items = append(items, workItem{k: "aready", n: id})
+			}
+			if len(n.appQ) > 0 {
+				items = append(items, workItem{k: "appthr", n: id, f: r.Intn(3) == 0, lag: true})
+			}
+			if len(n.aplQ) > 0 {
+				items = append(items, workItem{k: "aplthr", n: id, lag: true})
+			}
+			if len(n.selfApp) > 0 {
+				items = append(items, workItem{k: "self", n: id, a: 0})
+			}
+			if len(n.selfApl) > 0 {
+				items = append(items, workItem{k: "self", n: id, a: 1})
+			}
+			continue
+		}
+		switch {
+		case n.rd == nil:
+			if n.rn.HasReady() {
+				items = append(items, workItem{k: "ready", n: id})
+			}
+		case !n.persistedEnt:
+			items = append(items, workItem{k: "pents", n: id})
+		case !n.persistedHS:
+			items = append(items, workItem{k: "phs", n: id})
+		default:
+			if !n.sent {
+				items = append(items, workItem{k: "send", n: id})
+			}
+			if !n.applied {
+				items = append(items, workItem{k: "apply", n: id})
+			}
+			if n.sent && n.applied {
+				items = append(items, workItem{k: "advance", n: id})
+			}
+		}
+	}
+	return items
+}
+
+func (w *World) upNodes() []*node {
+	var out []*node
+	for _, id := range w.ids {
+		if n := w.nodes[id]; n.up() {
+			out = append(out, n)
+		}
+	}
+	return out
+}
+
+// Gen picks the next action. A world alternates between calm phases (no
+// faults: the group makes progress, commits, compacts, changes membership) and
+// hostile phases (the profile's faults), so that faults hit non-trivial states.
 func (w *World) Gen(r *rand.Rand) Action {
 	p := &w.Cfg.Prof
-	for try := 0; try < 12; try++ {
-		n := w.nodes[w.ids[r.Intn(len(w.ids))]]
-		if !n.up() {
-			if n.retired || !pct(r, p.RestartPct) {
-				continue
+	if w.step >= w.phaseEnd {
+		w.hostile = !w.hostile
+		if w.step == 0 {
+			w.hostile = r.Intn(3) == 0
+		}
+		if w.hostile {
+			w.phaseEnd = w.step + p.HostileMin + r.Intn(p.HostileMin*3+1)
+		} else {
+			w.phaseEnd = w.step + p.CalmMin + r.Intn(p.CalmMin*2+1)
+			if len(w.cut) > 0 {
+				return Action{K: "healnet"}
 			}
+		}
+	}
+	hostile := w.hostile
+	// down nodes come back: quickly when calm, at the profile's rate otherwise
+	for _, id := range w.ids {
+		n := w.nodes[id]
+		if n.up() || n.retired {
+			continue
+		}
+		if (!hostile && r.Intn(3) == 0) || (hostile && pct(r, p.RestartPct/4)) {
 			lo, hi := w.restartRange(n)
 			a := hi
 			if hi > lo && r.Intn(3) == 0 {
@@ -234,146 +336,124 @@ func (w *World) Gen(r *rand.Rand) Action {
 			}
 			return Action{K: "restart", N: n.id, A: a}
 		}
-		tot := p.WTick + p.WDeliver + p.WNet + p.WRead + p.WPropose + p.WMisc + p.WCrash + p.WReady + p.WStorage + p.WSelf
-		k := r.Intn(tot)
+	}
+	ups := w.upNodes()
+	if len(ups) == 0 {
+		for _, id := range w.ids {
+			if n := w.nodes[id]; !n.retired {
+				_, hi := w.restartRange(n)
+				return Action{K: "restart", N: id, A: hi}
+			}
+		}
+		return Action{K: "healnet"}
+	}
+	for try := 0; try < 16; try++ {
+		n := ups[r.Intn(len(ups))]
+		wWork, wTick, wClient, wFault := 100, p.WTick, p.WPropose+p.WRead+p.WMisc, 0
+		if hostile {
+			wFault = p.WNet + p.WCrash + 2
+			wTick += p.WTick / 2
+		}
+		k := r.Intn(wWork + wTick + wClient + wFault)
 		switch {
-		case k < p.WTick:
-			return Action{K: "tick", N: n.id}
-		case k < p.WTick+p.WDeliver:
-			if len(w.order) == 0 {
+		case k < wWork:
+			items := w.enabledWork(r)
+			if len(items) == 0 {
+				return Action{K: "tick", N: n.id}
+			}
+			it := items[r.Intn(len(items))]
+			if it.k == "deliver" && pct(r, p.FIFOPct) {
+				it = workItem{k: "deliver", a: uint64(w.order[0])}
+			}
+			if it.lag && pct(r, p.AppLagPct) && (hostile || p.AppLagPct >= 80) {
 				continue
 			}
-			i := r.Intn(len(w.order))
-			if pct(r, p.FIFOPct) {
-				i = 0
+			if it.k == "deliver" {
+				if hostile && pct(r, p.DropPct) {
+					return Action{K: "drop", A: it.a, F: r.Intn(4) == 0}
+				}
+				return Action{K: "deliver", A: it.a, F: hostile && pct(r, p.DupPct)}
 			}
-			id := w.order[i]
-			if pct(r, p.DropPct) {
-				return Action{K: "drop", A: uint64(id), F: r.Intn(4) == 0}
+			return Action{K: it.k, N: it.n, A: it.a, F: it.f}
+		case k < wWork+wTick:
+			return Action{K: "tick", N: n.id}
+		case k < wWork+wTick+wClient:
+			c := r.Intn(wClient)
+			switch {
+			case c < p.WRead:
+				w.seq++
+				at := n.id
+				if l := w.topLeader(); l != nil && r.Intn(2) == 0 {
+					at = l.id
+				}
+				return Action{K: "read", N: at, D: []byte(fmt.Sprintf("r%d", w.seq))}
+			case c < p.WRead+p.WPropose:
+				at := n
+				if l := w.topLeader(); l != nil && r.Intn(3) != 0 {
+					at = l
+				}
+				if r.Intn(8) == 0 {
+					var l [][]byte
+					for j := 0; j < 2+r.Intn(2); j++ {
+						l = append(l, w.payload(r))
+					}
+					if pct(r, p.CCPct/2) {
+						// a batch that mixes a configuration change with normal entries
+						cc := w.genCC(r, at)
+						if !cc.F {
+							pos := r.Intn(len(l) + 1)
+							l = append(l[:pos:pos], append([][]byte{cc.D}, l[pos:]...)...)
+							return Action{K: "propmix", N: at.id, L: l, A: uint64(pos)}
+						}
+					}
+					return Action{K: "propb", N: at.id, L: l}
+				}
+				return Action{K: "prop", N: at.id, D: w.payload(r)}
+			default:
+				if a, ok := w.genMisc(r, n, hostile); ok {
+					return a
+				}
+				continue
 			}
-			return Action{K: "deliver", A: uint64(id), F: pct(r, p.DupPct)}
-		case k < p.WTick+p.WDeliver+p.WNet:
-			switch r.Intn(6) {
-			case 0:
-				a, b := w.ids[r.Intn(len(w.ids))], w.ids[r.Intn(len(w.ids))]
-				if a == b {
+		default:
+			f := r.Intn(wFault)
+			switch {
+			case f < p.WCrash:
+				if !pct(r, p.CrashPct) {
 					continue
 				}
-				return Action{K: "cut", A: a, B: b}
-			case 1:
-				return Action{K: "isolate", N: n.id}
-			case 2, 3:
-				return Action{K: "healnet"}
+				keep := 0
+				if len(n.disk.Buf) > 0 {
+					keep = r.Intn(len(n.disk.Buf) + 1)
+				}
+				return Action{K: "crash", N: n.id, A: uint64(keep), F: r.Intn(2) == 0}
+			case f < p.WCrash+p.WNet:
+				switch r.Intn(6) {
+				case 0, 1:
+					a, b := w.ids[r.Intn(len(w.ids))], w.ids[r.Intn(len(w.ids))]
+					if a == b {
+						continue
+					}
+					return Action{K: "cut", A: a, B: b}
+				case 2:
+					return Action{K: "isolate", N: n.id}
+				case 3:
+					return Action{K: "healnet"}
+				default:
+					if len(w.old) > 0 && pct(r, p.StalePct) {
+						return Action{K: "stale", A: uint64(r.Intn(len(w.old)))}
+					}
+					continue
+				}
 			default:
 				if len(w.old) > 0 && pct(r, p.StalePct) {
 					return Action{K: "stale", A: uint64(r.Intn(len(w.old)))}
 				}
 				continue
 			}
-		case k < p.WTick+p.WDeliver+p.WNet+p.WRead:
-			w.seq++
-			at := n.id
-			if l := w.topLeader(); l != nil && r.Intn(2) == 0 {
-				at = l.id
-			}
-			return Action{K: "read", N: at, D: []byte(fmt.Sprintf("r%d", w.seq))}
-		case k < p.WTick+p.WDeliver+p.WNet+p.WRead+p.WPropose:
-			if r.Intn(8) == 0 {
-				var l [][]byte
-				for j := 0; j < 2+r.Intn(2); j++ {
-					l = append(l, w.payload(r))
-				}
-				if pct(r, p.CCPct/2) {
-					// a batch that mixes a configuration change with normal entries
-					cc := w.genCC(r, n)
-					if !cc.F {
-						pos := r.Intn(len(l) + 1)
-						l = append(l[:pos:pos], append([][]byte{cc.D}, l[pos:]...)...)
-						return Action{K: "propmix", N: n.id, L: l, A: uint64(pos)}
-					}
-				}
-				return Action{K: "propb", N: n.id, L: l}
-			}
-			return Action{K: "prop", N: n.id, D: w.payload(r)}
-		case k < p.WTick+p.WDeliver+p.WNet+p.WRead+p.WPropose+p.WMisc:
-			if a, ok := w.genMisc(r, n); ok {
-				return a
-			}
-			continue
-		case k < p.WTick+p.WDeliver+p.WNet+p.WRead+p.WPropose+p.WMisc+p.WCrash:
-			if !pct(r, p.CrashPct) {
-				continue
-			}
-			keep := 0
-			if len(n.disk.Buf) > 0 {
-				keep = r.Intn(len(n.disk.Buf) + 1)
-			}
-			return Action{K: "crash", N: n.id, A: uint64(keep), F: r.Intn(2) == 0}
-		case k < p.WTick+p.WDeliver+p.WNet+p.WRead+p.WPropose+p.WMisc+p.WCrash+p.WReady:
-			if n.cfg.Async {
-				if n.rn.HasReady() {
-					return Action{K: "aready", N: n.id}
-				}
-				continue
-			}
-			if n.rd == nil {
-				if n.rn.HasReady() {
-					return Action{K: "ready", N: n.id}
-				}
-				continue
-			}
-			var opts []string
-			switch {
-			case !n.persistedEnt:
-				opts = []string{"pents"}
-			case !n.persistedHS:
-				opts = []string{"phs"}
-			default:
-				if !n.sent {
-					opts = append(opts, "send")
-				}
-				if !n.applied {
-					opts = append(opts, "apply")
-				}
-				if n.sent && n.applied {
-					opts = []string{"advance"}
-				}
-			}
-			return Action{K: opts[r.Intn(len(opts))], N: n.id}
-		case k < p.WTick+p.WDeliver+p.WNet+p.WRead+p.WPropose+p.WMisc+p.WCrash+p.WReady+p.WStorage:
-			if !n.cfg.Async || pct(r, p.AppLagPct) {
-				continue
-			}
-			if len(n.appQ) > 0 && (len(n.aplQ) == 0 || r.Intn(2) == 0) {
-				return Action{K: "appthr", N: n.id, F: r.Intn(3) == 0}
-			}
-			if len(n.aplQ) > 0 {
-				return Action{K: "aplthr", N: n.id}
-			}
-			continue
-		default:
-			if len(n.selfApp) > 0 && (len(n.selfApl) == 0 || r.Intn(2) == 0) {
-				return Action{K: "self", N: n.id, A: 0}
-			}
-			if len(n.selfApl) > 0 {
-				return Action{K: "self", N: n.id, A: 1}
-			}
-			continue
 		}
 	}
-	// fall back to a tick of some live node
-	for _, id := range w.ids {
-		if w.nodes[id].up() {
-			return Action{K: "tick", N: id}
-		}
-	}
-	for _, id := range w.ids {
-		if n := w.nodes[id]; !n.retired {
-			_, hi := w.restartRange(n)
-			return Action{K: "restart", N: id, A: hi}
-		}
-	}
-	return Action{K: "healnet"}
+	return Action{K: "tick", N: ups[0].id}
 }
 
 func (w *World) payload(r *rand.Rand) []byte {
@@ -400,15 +480,15 @@ func (w *World) anyID(r *rand.Rand) uint64 {
 	return w.Cfg.IDs[len(w.Cfg.IDs)-1] + 1
 }
 
-func (w *World) genMisc(r *rand.Rand, n *node) (Action, bool) {
+func (w *World) genMisc(r *rand.Rand, n *node, hostile bool) (Action, bool) {
 	p := &w.Cfg.Prof
-	switch r.Intn(10) {
+	switch r.Intn(11) {
 	case 0:
 		if pct(r, p.CampaignPct) {
 			return Action{K: "campaign", N: n.id}, true
 		}
-	case 1:
-		if pct(r, p.CompactPct) {
+	case 1, 5:
+		if k5 := r.Intn(3); pct(r, p.CompactPct) && (p.CompactPct == 100 || k5 == 0) {
 			lo, hi := w.compactRange(n)
 			if hi > lo {
 				return Action{K: "compact", N: n.id, A: lo + 1 + uint64(r.Intn(int(hi-lo)))}, true
@@ -426,7 +506,7 @@ func (w *World) genMisc(r *rand.Rand, n *node) (Action, bool) {
 		if pct(r, p.TransferPct) {
 			return Action{K: "xfer", N: n.id, A: w.ids[r.Intn(len(w.ids))]}, true
 		}
-	case 5:
+	case 10:
 		if r.Intn(3) == 0 {
 			return Action{K: "forget", N: n.id}, true
 		}
